@@ -812,6 +812,9 @@ func (x *Exec) callByContract(fi *FuncInfo, fc *FuncContract, call *ast.CallExpr
 	for k, v := range pre.locals {
 		post.locals[k] = v
 	}
+	if (fc.Flags["readonly"] || fc.Flags["pure"]) && !x.P.IsReadonly(fi) {
+		unsupported("contract of %s claims readonly/pure but the body may write through its receiver or pointer parameters", fi.Key)
+	}
 	if rv := sig.Recv(); rv != nil {
 		if _, isPtr := rv.Type().(*types.Pointer); isPtr && !fc.Flags["readonly"] && !fc.Flags["pure"] {
 			nv := x.fresh(rv.Name(), rv.Type())
@@ -889,7 +892,15 @@ func contractResultNames(fi *FuncInfo, fc *FuncContract) []string {
 // abstractCall: unknown callee — results havocked, pointer receiver/arguments havocked.
 func (x *Exec) abstractCall(key string, fn *types.Func, sig *types.Signature, call *ast.CallExpr, recvExpr ast.Expr, args []Term, env *Env) []Term {
 	x.W.Note("call abstracted (results havocked): " + key)
-	_, inMod := x.P.ByObj[fn]
+	cfi, inMod := x.P.ByObj[fn]
+	if inMod && x.P.IsReadonly(cfi) {
+		// syntactically read-only callee: receiver and pointer arguments keep their values
+		var out []Term
+		for i := 0; i < sig.Results().Len(); i++ {
+			out = append(out, x.fresh(fmt.Sprintf("%s_r%d", fn.Name(), i), sig.Results().At(i).Type()))
+		}
+		return out
+	}
 	if rv := sig.Recv(); rv != nil && recvExpr != nil && inMod {
 		if _, isPtr := rv.Type().(*types.Pointer); isPtr {
 			if isAddressable(recvExpr) {
